@@ -437,6 +437,7 @@ class OverloadTranslator:
         if missing:
             raise Untranslatable(self.file, "?", "required overload(s) %s: %s" % (missing, self.skipped))
         self.defs = [done[k] for k in done]
+        self.done = done
         return self
 
     def method(self, name, done, stack):
@@ -468,18 +469,39 @@ class OverloadTranslator:
     def ov(self, name):
         return "ov_" + name.strip('_')
 
+    def coq(self, t):
+        if t[0] == 'v':
+            return t[1]
+        if t[0] == 'n':
+            return X.coq_num(t[1])
+        if t[0] == 'prim':
+            return "(%s %s %s)" % (t[1], self.coq(t[2]), self.coq(t[3]))
+        return "(%s %s %s)" % (self.ov(t[1]), self.P, " ".join(self.coq(a) for a in t[2]))
+
+    def evaluate(self, t, env):
+        """independent evaluation of an overload term with float semantics of the four primitives"""
+        if t[0] == 'v':
+            return env[t[1]]
+        if t[0] == 'n':
+            return float(t[1])
+        if t[0] == 'prim':
+            a, b = self.evaluate(t[2], env), self.evaluate(t[3], env)
+            return {'add': lambda: a + b, 'mul': lambda: a * b, 'pow': lambda: X._gpow(a, b), 'rpow': lambda: X._gpow(b, a)}[t[1]]()
+        name, params, term, _ = self.done[t[1]]
+        return self.evaluate(term, dict(zip(params, [self.evaluate(a, env) for a in t[2]])))
+
     def term(self, n, params, inside, done, stack):
         U = lambda what: Untranslatable(self.file, getattr(n, "lineno", "?"), what)
         rec = lambda x: self.term(x, params, inside, done, stack)
         if isinstance(n, ast.Name) and n.id in params:
-            return n.id
+            return ('v', n.id)
         if isinstance(n, ast.Constant):
-            return X.coq_num(literal(n, self.src, self.file))
+            return ('n', literal(n, self.src, self.file))
         if isinstance(n, ast.UnaryOp) and isinstance(n.op, ast.USub):
             if isinstance(n.operand, ast.Constant):
-                return X.coq_num(-literal(n.operand, self.src, self.file))
+                return ('n', -literal(n.operand, self.src, self.file))
             self.method('__neg__', done, stack)
-            return "(%s %s %s)" % (self.ov('__neg__'), self.P, rec(n.operand))
+            return ('ov', '__neg__', [rec(n.operand)])
         if isinstance(n, ast.BinOp) and type(n.op) in self.OPS:
             # Python dispatch: Tensor.__op__(left, right) when the left operand is a Tensor.  In a reflected method the
             # parameter `other` is the non-Tensor left operand of the user's expression, so `other <op> T` dispatches to
@@ -488,13 +510,13 @@ class OverloadTranslator:
             if inside.startswith('__r') and isinstance(n.left, ast.Name) and n.left.id == other:
                 target = self.ROPS[type(n.op)]
                 self.method(target, done, stack)
-                return "(%s %s %s %s)" % (self.ov(target), self.P, rec(n.right), rec(n.left))
+                return ('ov', target, [rec(n.right), rec(n.left)])
             target = self.OPS[type(n.op)]
             self.method(target, done, stack)
-            return "(%s %s %s %s)" % (self.ov(target), self.P, rec(n.left), rec(n.right))
+            return ('ov', target, [rec(n.left), rec(n.right)])
         if isinstance(n, ast.Call) and isinstance(n.func, ast.Attribute) and isinstance(n.func.value, ast.Name) and n.func.value.id == 'F' \
                 and n.func.attr in self.PRIMS and len(n.args) == 2 and not n.keywords:
-            return "(%s %s %s)" % (self.PRIMS[n.func.attr], rec(n.args[0]), rec(n.args[1]))
+            return ('prim', self.PRIMS[n.func.attr], rec(n.args[0]), rec(n.args[1]))
         raise U("overload body %s" % ast.unparse(n)[:60])
 
 
@@ -611,7 +633,7 @@ def text_overloads(ot):
            "   F.add, F.mul, F.pow (x ** n), F.rpow (n ** x); a number on either side is first wrapped into a constant Tensor.",
            "   Every definition takes the four primitives explicitly. *)\n"]
     for name, params, term, lines in ot.defs:
-        out.append("(* Tensor.%s: %s:%d-%d *)\nDefinition ov_%s (add mul pow rpow : R -> R -> R) (%s : R) : R := %s.\n" % (name, ot.file, lines[0], lines[1], name.strip('_'), " ".join(params), term))
+        out.append("(* Tensor.%s: %s:%d-%d *)\nDefinition ov_%s (add mul pow rpow : R -> R -> R) (%s : R) : R := %s.\n" % (name, ot.file, lines[0], lines[1], name.strip('_'), " ".join(params), ot.coq(term)))
     out.append("(* skipped overloads (not elementwise):\n%s\n*)\n" % fmt_skipped(ot.skipped))
     return "\n".join(out)
 
